@@ -71,7 +71,11 @@ Definition range_bad (d : goval) (typ fmt : str) : bool :=
             if Z.eqb fmt k_int32 then negb ((- two31 <=? z) && (z <? two31))
             else if Z.eqb fmt k_uint32 then negb ((0 <=? z) && (z <? two32))
             else if Z.eqb fmt k_uint64 then negb ((0 <=? z) && (z <? two64))
-            else negb ((- two63 <=? z) && (z <? two63))
+            else
+              (* a float64 is formatted with its shortest decimal digits before strconv.ParseInt sees it: -2^63 prints as
+                 -9223372036854776000, which is out of range (every other in-range float64 prints inside the range) *)
+              let lo_ok := match d with VFlt _ _ => - two63 <? z | _ => - two63 <=? z end in
+              negb (lo_ok && (z <? two63))
         end
       else
         if Z.eqb fmt k_float || Z.eqb fmt k_float32 then
